@@ -31,6 +31,7 @@ type Prog struct {
 	SPkg   map[string]*ssa.Package
 	Funcs  []*ssa.Function // all functions of module packages (incl. anonymous)
 	cg     *callgraph.Graph
+	medges map[*ssa.Function][]*ssa.Function
 	Sizes  types.Sizes
 }
 
